@@ -44,7 +44,7 @@ Proof.
       match truthy (k_nlyearday k) with
       | Some v => (v, k_leapdays k)
       | None => match truthy (k_yearday k) with
-                | Some v => (v, if 59 <? v then -1 else k_leapdays k)
+                | Some v => (v, if (59 <? v) && (v <? 366) then -1 else k_leapdays k)
                 | None => (0, k_leapdays k)
                 end
       end in
@@ -62,7 +62,7 @@ Proof.
     destruct (match truthy (k_nlyearday k) with
               | Some v => (v, k_leapdays k)
               | None => match truthy (k_yearday k) with
-                        | Some v => (v, if 59 <? v then -1 else k_leapdays k)
+                        | Some v => (v, if (59 <? v) && (v <? 366) then -1 else k_leapdays k)
                         | None => (0, k_leapdays k)
                         end
               end) as [yday leap].
@@ -112,3 +112,67 @@ Example ex_weekday_forms :
   mk (set_wd kw0 (WInt 7)) = Err EIndex /\
   (exists d, mk (set_wd kw0 (WObj 6 (Some 1))) = Ok d /\ wd d = Some (6, Some 1)).
 Proof. repeat split. eexists. split; vm_compute; reflexivity. Qed.
+
+(* d + (-d) is exactly the non-relative part of d (leapdays, absolute fields, weekday kept) *)
+Lemma first_some_self : forall (A : Type) (x : option A), first_some x x = x.
+Proof. intros A [a|]; reflexivity. Qed.
+
+Lemma zip_abs_self : forall a, zip_abs a a = a.
+Proof. intros [y mo d h mi s us]. unfold zip_abs.
+  cbn [a_year a_month a_day a_hour a_minute a_second a_us]. rewrite !first_some_self. reflexivity. Qed.
+
+Theorem add_neg_exact : forall d, add_rd d (neg d) = mkrd rel0 (leapdays d) (ab d) (wd d).
+Proof.
+  intro d. pose proof (add_neg_no_relative d) as H. apply no_rel_iff in H.
+  destruct (add_rd d (neg d)) as [r l a w] eqn:E. cbn [rel] in H. subst r.
+  unfold add_rd, neg, build, fix_rd in E. cbn [rel leapdays ab wd] in E.
+  rewrite zip_abs_self, first_some_self in E.
+  destruct (nz (leapdays d)); inversion E; reflexivity.
+Qed.
+
+(* ---------------------------------------------------------------- declarative reading of a carry *)
+(* "sign-preserving carry that preserves the total" determines the result: any (lo', up') with the
+   same total, |lo'| < base and lo' not of the opposite sign of lo IS what the code computes *)
+Theorem carry_unique : forall b lo up lo' up', 0 < b ->
+  up' * b + lo' = up * b + lo -> Z.abs lo' < b -> 0 <= lo' * lo ->
+  carry b lo up = (lo', up').
+Proof.
+  intros b lo up lo' up' Hb Htot Hbd Hsg.
+  destruct (Z.eq_dec lo 0) as [Z0|NZ].
+  { subst lo. rewrite carry_small by lia.
+    assert (up' = up) by nia. subst up'. f_equal. lia. }
+  pose proof (carry_total b lo up Hb) as T. pose proof (carry_bound b lo up Hb) as B.
+  destruct (Z.le_gt_cases 0 lo) as [H|H].
+  - destruct (carry_nonneg b lo up Hb H) as [X _].
+    destruct (carry b lo up) as [x y]. cbn [fst snd] in *.
+    assert (0 <= lo') by nia.
+    assert (E : (y - up') * b = lo' - x) by lia.
+    assert (y = up') by nia. subst y. f_equal. lia.
+  - destruct (carry_nonpos b lo up Hb ltac:(lia)) as [X _].
+    destruct (carry b lo up) as [x y]. cbn [fst snd] in *.
+    assert (lo' <= 0) by nia.
+    assert (E : (y - up') * b = lo' - x) by lia.
+    assert (y = up') by nia. subst y. f_equal. lia.
+Qed.
+
+(* the relative part of a sum does not depend on the order of the operands *)
+Theorem add_rel_comm : forall a b, rel (add_rd a b) = rel (add_rd b a).
+Proof.
+  intros a b. unfold add_rd, build, fix_rd. cbn [rel]. f_equal.
+  destruct (rel a) as [y mo d h mi s us], (rel b) as [y' mo' d' h' mi' s' us']. unfold zip_rel.
+  cbn [f_years f_months f_days f_hours f_minutes f_seconds f_us]. f_equal; lia.
+Qed.
+
+Example ex_carry_unique : carry 60 (-125) 3 = (-5, 1).
+Proof. apply carry_unique; lia. Qed.
+
+(* bool(d) is false exactly when d == relativedelta() *)
+Theorem bool_iff_eq_empty : forall d, rd_bool d = negb (eqb d rd0).
+Proof.
+  intro d. destruct (eqb d rd0) eqn:E; cbn [negb].
+  - apply bool_false_iff_empty. apply eqb_iff_hash_key in E.
+    destruct d as [r l a w]. unfold hash_key, rd0 in E. cbn [rel leapdays ab wd hash_wd] in E.
+    inversion E as [[Hw Hr Hl Ha]]. destruct w as [[k n]|]; [discriminate Hw | reflexivity].
+  - destruct (rd_bool d) eqn:B; [reflexivity |].
+    apply bool_false_iff_empty in B. subst d. rewrite eqb_refl in E. discriminate E.
+Qed.
